@@ -23,8 +23,8 @@ PROP = "C15"
 BUDGET = {"quick": 420, "thorough": 3600}
 META = {
     "rule": "(a) family = base 3-index array (Z2 / U1; abelian and fermionic) and members differing in exactly one attribute (one direction, one block size, one charge label, one missing sector, "
-    "block order, total charge, symmetry object with equal labels, a pre-fused index with different sub-structure but equal table, dtype); events = fuse x3 groupings, fused tensordot, reshape, "
-    "fuse+unfuse_all, svd_truncated x2 limits on every member; breadth-first over event histories from the cold state, deduplicated by system state (ordered fuse-cache keys, argument sets seen by every "
+    "block order, total charge, symmetry object with equal labels, a pre-fused index with different sub-structure but equal table, a twice-fused leg differing only in its innermost legs, the mere name of a charge over the box [-2,2], dtype); events = fuse x3 groupings, fused tensordot, reshape, "
+    "fuse + unfuse down to the innermost legs, svd_truncated x2 limits on every member; breadth-first over event histories from the cold state, deduplicated by system state (ordered fuse-cache keys, argument sets seen by every "
     "lru_cache, hash-memo flags of the shared index objects, default mode); settings maxsize in {0,1,2,8192} x maxsectors in {1,512} and the environment-variable route; (b) every initial mode x nesting <=2 x "
     "outcome; (c) 2 threads on shared operands, scheduling point = every line of library code (every opcode inside the cache / hash-memo functions), preemption bound 0 and 1 complete; bound 2 over the critical functions in thorough. "
     "non-trivial = history whose last event finds a warm / evicting cache, or schedule with a preemption inside library code",
@@ -77,6 +77,11 @@ def make_family(sym, ferm, seedtag=1):
     fam["size"] = tagged((sr.BlockIndex({e: 1, c1: 3}, dual=False), j, k), e)
     if c2 is not None:
         fam["charge-label"] = tagged((sr.BlockIndex({e: 1, c2: 2}, dual=False), j, k), e)
+    if sym == "U1":
+        # arrays that are identical up to the NAME of one charge: a leg carrying the single charge v, total charge v
+        # (the sectors correspond one to one); v runs over the box [-2, 2]
+        for v in (-2, -1, 1, 2):
+            fam[f"single-label({v})"] = tagged((sr.BlockIndex({v: 2}, dual=False), j, k), v)
     fam["missing"] = tagged((i, j, k), e, drop=1)
     fam["order"] = tagged((i, j, k), e, order="reversed")
     fam["total-charge"] = tagged((i, j, k), c1)
